@@ -28,7 +28,13 @@ import (
 const tokenID = 9
 
 var (
-	addrIDs   = []int{0, 1, 2, 3, 4, 5, tokenID}
+	baseAddrs = []int{0, 1, 2, 3, 4, 5, tokenID}
+	lowAddrs  = []int{11, 12, 13, 14, 15, 16, 17, 18, 19, 20} // id 10+i = 0x..0i for i = 1..10 (id 13 = 0x..03); 0x..00 is the token address (id 9) of the unbound-token phase
+	addrIDs   = []int{0, 1, 2, 3, 4, 5, tokenID, 11, 12, 13, 14, 15, 16, 17, 18, 19, 20}
+	caseLows  []int // the low addresses the current program may use (queried by fullObs / globalObs)
+	// the 20 bytes of `var ripemd` in transition.go as they are at HEAD: common.StringToAddress of a 40-digit
+	// string keeps the last 20 ASCII characters, "00000000000000000003" = 0x30 x19, 0x33.  Model id 3.
+	ripemdHead = []byte("00000000000000000003")
 	addrOf    = map[int]common.Address{}
 	genKeys   = []int{0, 1, 2, 3}
 	keyOf     = map[int][]byte{}
@@ -45,7 +51,12 @@ func setupUniverse(token common.Address) {
 	addrOf[0] = common.HexToAddress("0x1000000000000000000000000000000000000a00")
 	addrOf[1] = common.HexToAddress("0x2000000000000000000000000000000000000a01")
 	addrOf[2] = common.HexToAddress("0x3000000000000000000000000000000000000a02")
-	addrOf[3] = common.StringToAddress("0000000000000000000000000000000000000003") // transition.go: ripemd
+	addrOf[3] = common.BytesToAddress(ripemdHead) // the literal bytes, NOT recomputed through StringToAddress
+	for _, id := range lowAddrs {
+		var ad common.Address // 0x00..0i: set the last byte (BytesToAddress left-aligns a short slice in this code base)
+		ad[len(ad)-1] = byte(id - 10)
+		addrOf[id] = ad
+	}
 	addrOf[4] = common.HexToAddress("0x5000000000000000000000000000000000000a04")
 	addrOf[5] = common.HexToAddress("0x6000000000000000000000000000000000000a05")
 	addrOf[tokenID] = token
@@ -161,7 +172,25 @@ type genCfg struct {
 	pCommitted, pTouch float64
 }
 
-func pickAddr(r *hx.Rng) int { return addrIDs[r.Intn(len(addrIDs))] }
+func pickAddr(r *hx.Rng) int {
+	if len(caseLows) > 0 && r.Intn(6) == 0 {
+		return caseLows[r.Intn(len(caseLows))]
+	}
+	return baseAddrs[r.Intn(len(baseAddrs))]
+}
+
+// the addresses whose queries are recorded: the base universe and the low addresses of this program
+func obsAddrs() []int { return append(append([]int{}, baseAddrs...), caseLows...) }
+
+func addrClass(a int) string {
+	switch {
+	case a == 3:
+		return "ripemd-constant"
+	case a >= 10:
+		return fmt.Sprintf("0x%02x", a-10)
+	}
+	return fmt.Sprintf("id%d", a)
+}
 func pickKey(r *hx.Rng, a int) int {
 	if a == tokenID && r.Intn(3) > 0 {
 		return 1000 + pickAddr(r)
@@ -173,6 +202,7 @@ func pickKey(r *hx.Rng, a int) int {
 }
 
 var exoticQueries bool
+var ripemdActual []byte
 
 func genQuery(r *hx.Rng) *Op {
 	a := pickAddr(r)
@@ -215,7 +245,7 @@ func genQuery(r *hx.Rng) *Op {
 // the queries the property lists, over the whole universe
 func fullObs(withData bool) []*Op {
 	var l []*Op
-	for _, a := range addrIDs {
+	for _, a := range obsAddrs() {
 		l = append(l, &Op{K: "Exist", A: a}, &Op{K: "GetNonce", A: a}, &Op{K: "GetCodeHash", A: a}, &Op{K: "GetCode", A: a},
 			&Op{K: "GetCodeSize", A: a}, &Op{K: "Suicided", A: a}, &Op{K: "ALHasAddr", A: a})
 		for _, k := range genKeys {
@@ -230,7 +260,7 @@ func fullObs(withData bool) []*Op {
 		}
 	}
 	if withData {
-		for _, a := range addrIDs {
+		for _, a := range obsAddrs() {
 			l = append(l, &Op{K: "GetData", A: tokenID, Key: 1000 + a})
 		}
 	}
@@ -241,7 +271,7 @@ func fullObs(withData bool) []*Op {
 // the queries that do not go through an account object
 func globalObs() []*Op {
 	l := []*Op{{K: "GetRefund"}, {K: "GetLogs", H: 0}, {K: "GetLogs", H: 1}}
-	for _, a := range addrIDs {
+	for _, a := range obsAddrs() {
 		l = append(l, &Op{K: "ALHasAddr", A: a})
 		for _, k := range genKeys {
 			l = append(l, &Op{K: "ALHasSlot", A: a, Key: k}, &Op{K: "GetTransient", A: a, Key: k})
@@ -285,7 +315,7 @@ func genMut(r *hx.Rng, exotic bool) *Op {
 		}
 	}
 	for {
-		switch r.Intn(26) {
+		switch r.Intn(30) {
 		case 0, 1:
 			return &Op{K: "SetNonce", A: a, N: uint64(r.Intn(4))}
 		case 2:
@@ -692,11 +722,12 @@ func finalise(c *execCtx, adb account.AccountDatabase, del bool) (ir, cr common.
 type progFacts struct {
 	revCommitted, revSuicide bool
 	revTouch                 map[int]bool // AddFT(a, 0) inside a reverted bracket
+	revWrite                 map[int]bool // any other call on the account object of a inside a reverted bracket
 	committed                map[[2]int]bool // GetCommittedState(a, k) anywhere in the program
 }
 
 func facts(prog []*Item) progFacts {
-	f := progFacts{revTouch: map[int]bool{}, committed: map[[2]int]bool{}}
+	f := progFacts{revTouch: map[int]bool{}, revWrite: map[int]bool{}, committed: map[[2]int]bool{}}
 	walk(prog, func(o *Op, rev bool) {
 		if o.K == "GetCommitted" {
 			f.committed[[2]int{o.A, o.Key}] = true
@@ -711,6 +742,16 @@ func facts(prog []*Item) progFacts {
 			f.revSuicide = true
 		case o.K == "AddFT" && o.N == 0:
 			f.revTouch[o.A] = true
+		}
+		switch o.K {
+		case "SetNonce", "IncNonce", "SetData", "SetCode", "Suicide", "CreateAccount", "SubFT", "SetFT", "GetFT":
+			f.revWrite[o.A] = true
+		case "AddFT":
+			if o.N != 0 {
+				f.revWrite[o.A] = true
+			}
+		case "AddBalance", "SubBalance", "SetBalance", "Transfer", "GetBalance":
+			f.revWrite[tokenID] = true
 		}
 	}, false)
 	return f
@@ -735,6 +776,12 @@ func main() {
 	phase2At := nCases / 2
 	token := common.Address{}
 	setupUniverse(token)
+	// the exemption of touchChange.undo as the running code has it
+	rc := account.VerifRipemdConstant()
+	ripemdActual = rc[:]
+	if !bytes.Equal(ripemdActual, ripemdHead) {
+		res.Violate("C04/touch-undo-exemption:ripemd-constant-changed", fmt.Sprintf("the address touchChange.undo exempts is 0x%x; the model (and HEAD) have 0x%x, an address no transaction can name", ripemdActual, ripemdHead), "src/storage/account/transition.go: var ripemd")
+	}
 	bindAddr = common.GenerateERC20Binding(common.BLANCE_NAME)
 	sampled := 0
 
@@ -758,6 +805,13 @@ func main() {
 			s0.AddERC20Binding(common.BLANCE_NAME, boundTok, 3, 18)
 		}
 		exoticQueries = false
+		caseLows = caseLows[:0]
+		if r.Intn(3) == 0 {
+			caseLows = append(caseLows, lowAddrs[r.Intn(len(lowAddrs))])
+			if r.Intn(2) == 0 {
+				caseLows = append(caseLows, 13) // 0x..03, the address the ripemd constant is meant to name
+			}
+		}
 		pre := genItems(r, 1, r.Intn(14), false)
 		hotA := -1
 		if r.Intn(3) == 0 { // a slot with a committed value for the program to remove and rewrite
@@ -857,6 +911,26 @@ func main() {
 				body = append(body, &Item{Op: &Op{K: "Transfer", A: x, B: z, N: uint64(1 + r.Intn(9))}}, &Item{Op: &Op{K: "GetBalance", A: y}})
 			}
 			inject = []*Item{{Body: body, Rv: true, Obs: obs}}
+		case 12, 13, 14:
+			// a zero-amount AddFT (touch) inside a reverted bracket on: the ripemd constant as it is at HEAD (id 3), 0x..03,
+			// or another low address; committed empty (the touch happens) or committed non-empty (it does not)
+			x := 3
+			switch r.Intn(3) {
+			case 0:
+				x = 13
+			case 1:
+				x = lowAddrs[r.Intn(len(lowAddrs))]
+			}
+			if x >= 10 {
+				caseLows = append(caseLows, x)
+			}
+			if r.Intn(4) > 0 {
+				pre = []*Item{{Op: &Op{K: "CreateAccount", A: x}}, {Op: &Op{K: "SetNonce", A: (x%6 + 1) % 6, N: 2}}}
+				delCommit = false
+			} else {
+				pre = []*Item{{Op: &Op{K: "SetNonce", A: x, N: 1}}}
+			}
+			inject = []*Item{{Body: []*Item{{Op: &Op{K: "AddFT", A: x, N: 0}}}, Rv: true, Obs: []*Op{{K: "Exist", A: x}, {K: "GetNonce", A: x}}}}
 		case 8:
 			// uint64 wrap-around of the nonce, kept or reverted
 			x := r.Intn(6)
@@ -1088,7 +1162,7 @@ func main() {
 			continue
 		}
 		// model case
-		term := fmt.Sprintf("Case %s %s %d %s 0 %s [%s] %s %s", coqDump(start), coqCodes(), tokenID, hx.CoqBool(p002), ptxt,
+		term := fmt.Sprintf("Case %s %s %d %s 0 %s %s [%s] %s %s", coqDump(start), coqCodes(), tokenID, hx.CoqBool(p002), hx.CoqHex(ripemdActual), ptxt,
 			strings.Join(c1.answers, "; "), coqDump(fin[0]), coqDump(fin[1]))
 		if len(term) < 60000 {
 			cs.Add(term, map[string]interface{}{"p002": p002, "token_bound": ci >= phase2At, "start": coqDump(start), "program": ptxt})
@@ -1109,7 +1183,7 @@ func main() {
 // the nil-checking entry points are dropped, CreateAccount does not bring it back, GetFT dereferences nil);
 // an address that never existed can still be created.
 func lifecycle(res *hx.Result, s *account.AccountDB, existed map[int]bool, class, ptxt string) {
-	for _, a := range addrIDs {
+	for _, a := range obsAddrs() {
 		if a == tokenID {
 			continue
 		}
@@ -1181,6 +1255,12 @@ func classifyRoot(got, ref, start map[int]leaf, del, p002 bool, f progFacts) (st
 		key := fmt.Sprintf("C04/root-after-revert:unclassified(addr=%d)", a)
 		emptyish := func(l leaf) bool { return l.exists && l.nonce == 0 && l.hash == 0 }
 		switch {
+		case del && !g.exists && r.exists && emptyish(r) && len(r.store) == 0 && f.revTouch[a] && !f.revWrite[a]:
+			// the only thing the reverted parts did to this empty account is a touch (zero-amount AddFT): the revert
+			// did not undo it (touched flag / dirty mark survive), Finalise(true) sweeps the account.  At HEAD this
+			// happens for exactly one address, the ripemd constant exempted by touchChange.undo; the key carries the
+			// address class so that the same difference on any other address is a new violation
+			key = "C04/root-after-revert:reverted-touch-not-undone:addr=" + addrClass(a)
 		case del && g.exists != r.exists && (emptyish(g) || emptyish(r)):
 			x := g
 			if r.exists {
